@@ -10,6 +10,7 @@ import (
 	"strings"
 	"syscall"
 	"time"
+	"unsafe"
 )
 
 const defaultHeapLimit = int64(1) << 30 // live heap ceiling when a check sets no budget
@@ -21,7 +22,7 @@ const (
 	exitHang      = 87 // watchdog fired; partial results dumped
 	exitStall     = 88 // no progress but no CPU use either (starved): inconclusive
 	stallSeconds  = 30 // no Tick for this long and little CPU used => starved, inconclusive
-	fastHang      = 6 * time.Second
+	fastHang      = 10 * time.Second
 	pollerPeriod  = 500 * time.Microsecond
 	hangCPUShare  = 0.5
 	soloStallMult = 3
@@ -51,34 +52,58 @@ func guards(c *Ctx, out string, stall time.Duration) {
 		}
 	}()
 	go func() { // stall watchdog
+		// Evidence is CPU time, never wall-clock time alone: the CPU time of
+		// the worker's main thread (to which the main goroutine is locked),
+		// or of the whole process for concurrent workloads. A call is
+		// reported as not returning when that clock has advanced by the
+		// allowance (fastHang plus whatever the check granted for this call)
+		// at a share of at least 90% of the elapsed time without the next
+		// Tick being reached, or at a share of at least 50% over the whole
+		// stall period. No progress and little CPU means the worker was
+		// starved: inconclusive, the parent runs the case alone.
+		cpuNow := func() float64 {
+			if c.concurrent.Load() || c.mainTid == 0 {
+				return cpuSeconds()
+			}
+			return threadCPUSeconds(c.mainTid)
+		}
 		last := c.ticks.Load()
 		lastChange := time.Now()
-		cpuAt := cpuSeconds()
+		cpuAt := cpuNow()
 		for {
 			time.Sleep(250 * time.Millisecond)
 			now := c.ticks.Load()
 			if now != last {
-				last, lastChange, cpuAt = now, time.Now(), cpuSeconds()
+				last, lastChange, cpuAt = now, time.Now(), cpuNow()
 				continue
 			}
 			el := time.Since(lastChange)
-			used := cpuSeconds() - cpuAt
+			used := cpuNow() - cpuAt
+			allowance := fastHang.Seconds() + float64(c.allowNs.Load())/1e9
 			desc := c.currentString()
-			// a call that keeps at least one core fully busy for fastHang
-			// without reaching the next Tick, or at least half a core for
-			// the whole stall allowance, is reported as not returning
-			if (el >= fastHang && used >= 0.9*el.Seconds()) || (el >= stall && used >= hangCPUShare*el.Seconds()) {
-				c.Violation("HANG/"+sigHead(desc), fmt.Sprintf("call did not return: %.1f s of CPU in %.1f s without progress during: %s", used, el.Seconds(), clip(desc, 300)),
-					map[string]interface{}{"cpu_s": used, "wall_s": el.Seconds(), "call": clip(desc, 9000)})
+			if (used >= allowance && used >= 0.9*el.Seconds()) || (el >= stall+time.Duration(allowance*float64(time.Second)) && used >= hangCPUShare*el.Seconds()) {
+				c.Violation("HANG/"+sigHead(desc), fmt.Sprintf("call did not return: %.1f s of CPU in %.1f s without progress (allowance %.1f s) during: %s", used, el.Seconds(), allowance, clip(desc, 300)),
+					map[string]interface{}{"cpu_s": used, "wall_s": el.Seconds(), "allowance_s": allowance, "call": clip(desc, 9000)})
 				abort(c, out, "hang", exitHang)
 			}
-			if el < stall {
+			if el < stall+time.Duration(allowance*float64(time.Second)) {
 				continue
 			}
 			c.Inconclusive(fmt.Sprintf("no progress for %.1f s but only %.1f s of CPU used (starved?) during: %s", el.Seconds(), used, clip(desc, 200)))
 			abort(c, out, "stall", exitStall)
 		}
 	}()
+}
+
+// threadCPUSeconds reads the CPU clock of thread tid of this process.
+func threadCPUSeconds(tid int) float64 {
+	// MAKE_THREAD_CPUCLOCK(tid, CPUCLOCK_SCHED): ((~tid) << 3) | CPUCLOCK_SCHED | CPUCLOCK_PERTHREAD_MASK
+	clk := (^uintptr(tid))<<3 | 2 | 4
+	var ts syscall.Timespec
+	if _, _, e := syscall.Syscall(syscall.SYS_CLOCK_GETTIME, clk, uintptr(unsafe.Pointer(&ts)), 0); e != 0 {
+		return cpuSeconds()
+	}
+	return float64(ts.Sec) + float64(ts.Nsec)/1e9
 }
 
 // sigHead turns a call description ("api hex…") into the stable part of a
@@ -139,7 +164,9 @@ func WorkerMain(chk Check, env Env, args []string) {
 	out := args[5]
 	solo := os.Getenv("VERIF_SOLO") == "1"
 
+	runtime.LockOSThread() // the watchdog reads this thread's CPU clock
 	c := newCtx(env, chk.ID())
+	c.mainTid = syscall.Gettid()
 	c.Solo = solo
 	c.phase = phase
 	c.raceLog = os.Getenv("VERIF_RACELOG")
